@@ -619,7 +619,13 @@ class UserSecurityModel(
         security = USMSecurityParameters.decode(
             response_msg.security_parameters
         )
-        wrapped_vars = response_msg.scoped_pdu.data.value.varbinds
+        try:
+            wrapped_vars = response_msg.scoped_pdu.data.value.varbinds
+        except ErrorResponse as exc:
+            # PDUs are decoded lazily and raise the exception of their
+            # error-status. A discovery response is not an answer to the
+            # request which triggered the discovery.
+            raise SnmpError(f"Invalid discovery response ({exc})") from exc
         if not wrapped_vars:
             raise SnmpError("Invalid discovery response (no varbinds returned)")
         unknown_engine_id_var = wrapped_vars[0]
